@@ -1,5 +1,5 @@
 CONSTANTS Sess = {"s1", "s2"} Ids = {1, 2} Deadlines = {5000, 5300, 1000} Sweeps = {2500, 5200, 9000}
- Sec = 1000 Depth = 3 GenKinds = {"pub1", "pubrec"}
+ Sec = 1000 Depth = 3 GenKinds = {"pub1", "pubrec"} GenAcks = {"PUBACK", "PUBREC", "PUBREL", "PUBCOMP"} Pre <- NoPre
 SPECIFICATION GSpec
 CONSTRAINT Dump
 CHECK_DEADLOCK FALSE
